@@ -244,7 +244,7 @@ def locLt (a b : Loc) : Bool :=
 def dedupAdj : List Loc → List Loc
   | [] => []
   | [a] => [a]
-  | a :: b :: rest => if a == b then dedupAdj (b :: rest) else a :: dedupAdj (b :: rest)
+  | a :: b :: rest => if a = b then dedupAdj (b :: rest) else a :: dedupAdj (b :: rest)
 
 /-- `sortAndDedup` (`nil` and the empty slice are not distinguished).  `sort.Slice` is not
     stable; the model uses a stable sort, the theorems only use that it is a sorted permutation. -/
